@@ -535,3 +535,76 @@ Theorem abort_until_completion_anywhere c ixc ixa rest its tail : ixa <> ixc ->
 Proof.
   intros H Hp. apply abort_at_any_position; [exact Hp|]. intros acc0. destruct acc0. apply abort_until_completion. exact H.
 Qed.
+
+(* ---------- C19: commit — busy / idle; the order of the clean-up chain ---------- *)
+
+(* conversion hint for Qed: never unfold the 400-step consumer loop or its fuel when comparing terms *)
+Local Strategy 1000 [consume LOOPFUEL retry_next].
+
+(* the partial-reversal exchange commit_transaction runs for receipt rn (exactly the term of Client.commit_transaction) *)
+Definition commit_exchange (cfg : config) (tok : list N) (rn amount : N) (w : world) : cres (option value) * world :=
+  let reversal := c_amount cfg - amount in
+  let cmd := mk_cmd "zvt::packets::PartialReversal" []
+               [(135, VSome (VInt rn)); (73, VSome (VInt (c_currency cfg))); (4, VSome (VInt reversal)); (25, VSome (VInt 64)); (6, bmp60 tok)] in
+  let q := seq_of "zvt::sequences::PartialReversal" cmd in
+  let ixa := variant_ix "zvt::sequences::PartialReversalResponse" "PartialReversalAbort" in
+  let ixs := variant_ix "zvt::sequences::PartialReversalResponse" "StatusInformation" in
+  consume LOOPFUEL cfg (start_retry q TIMEOUT) w None (h_commit ixa ixs) (fun acc => ROk acc).
+
+Definition summary_of (si : option value) : cres summary :=
+  match si with
+  | None => RErr EIncomplete
+  | Some v =>
+      let g tg := match field_of "zvt::packets::StatusInformation" v tg with Some (VSome (VInt n)) => Some n | _ => None end in
+      ROk {| m_tid := g 41; m_amount := g 4; m_trace := g 11; m_date := g 13; m_time := g 12 |}
+  end.
+
+(* while another transaction is still open, a completed commit causes no further traffic at all *)
+Theorem commit_busy_no_end_of_day cfg st tok amount rn w si w1 x rest :
+  assoc_tok tok (s_txs st) = Some rn -> remove_tok tok (s_txs st) = x :: rest ->
+  commit_exchange cfg tok rn amount w = (ROk si, w1) ->
+  commit_transaction cfg st tok amount w = (summary_of si, {| s_txs := x :: rest; s_max := s_max st |}, w1).
+Proof.
+  intros A R E. unfold commit_transaction. rewrite A. unfold commit_exchange in E. cbv zeta in E. rewrite E.
+  cbn [s_txs]. rewrite R. destruct si; reflexivity.
+Qed.
+
+(* when it leaves nothing open, the clean-up chain runs at once — also when the terminal completed the commit without any
+   status information (the call is then incomplete for the caller, but the terminal is idle): state and world are those of
+   end_of_day, a failure of the chain is the call's failure, otherwise the summary *)
+Theorem commit_idle_runs_cleanup cfg st tok amount rn w si w1 :
+  assoc_tok tok (s_txs st) = Some rn -> remove_tok tok (s_txs st) = [] ->
+  commit_exchange cfg tok rn amount w = (ROk si, w1) ->
+  commit_transaction cfg st tok amount w =
+  (let '(r2, st2, w2) := end_of_day cfg {| s_txs := []; s_max := s_max st |} w1 in
+   (match r2 with RErr e => RErr e | ROk _ => summary_of si end, st2, w2)).
+Proof.
+  intros A R E. unfold commit_transaction. rewrite A. unfold commit_exchange in E. cbv zeta in E. rewrite E.
+  cbn [s_txs]. rewrite R. destruct (end_of_day cfg _ w1) as [[r2 st2] w2]. destruct r2; [destruct si; reflexivity|reflexivity].
+Qed.
+
+(* the chain itself, in order: (1) the query for a dangling pre-authorisation; if it fails nothing else is requested *)
+Theorem cleanup_stops_when_query_fails cfg st w e w1 : get_pending cfg w = (RErr e, w1) ->
+  end_of_day cfg st w = (RErr e, {| s_txs := []; s_max := s_max st |}, w1).
+Proof. intros E. unfold end_of_day. rewrite E. reflexivity. Qed.
+
+(* (2) the reversal of the reported one; if the terminal refuses it, that is the outcome and end-of-day is NOT requested *)
+Theorem cleanup_stops_when_reversal_fails cfg st w p w1 e w2 : get_pending cfg w = (ROk [p], w1) ->
+  cancel_by_receipt cfg p w1 = (RErr e, w2) ->
+  end_of_day cfg st w = (RErr e, {| s_txs := []; s_max := s_max st |}, w2).
+Proof. intros E1 E2. unfold end_of_day. rewrite E1. cbn [fold_left]. rewrite E2. reflexivity. Qed.
+
+(* (3) then, and only then, end-of-day — on the world the first two steps left *)
+Definition eod_exchange (cfg : config) (w : world) : cres unit * world :=
+  consume LOOPFUEL cfg (start_retry (seq_of "zvt::sequences::EndOfDay" (mk_cmd "zvt::packets::EndOfDay" [VInt (c_password cfg)] [])) TIMEOUT) w tt
+    (h_eod (variant_ix "zvt::sequences::EndOfDayResponse" "CompletionData") (variant_ix "zvt::sequences::EndOfDayResponse" "Abort"))
+    (fun _ => RErr EIncomplete).
+
+Theorem cleanup_then_end_of_day cfg st w w1 : get_pending cfg w = (ROk [], w1) ->
+  end_of_day cfg st w = (fst (eod_exchange cfg w1), {| s_txs := []; s_max := s_max st |}, snd (eod_exchange cfg w1)).
+Proof. intros E. unfold end_of_day, eod_exchange. rewrite E. cbn [fold_left]. destruct (consume _ _ _ w1 _ _ _). reflexivity. Qed.
+
+Theorem cleanup_reversal_then_end_of_day cfg st w p w1 u w2 : get_pending cfg w = (ROk [p], w1) ->
+  cancel_by_receipt cfg p w1 = (ROk u, w2) ->
+  end_of_day cfg st w = (fst (eod_exchange cfg w2), {| s_txs := []; s_max := s_max st |}, snd (eod_exchange cfg w2)).
+Proof. intros E1 E2. unfold end_of_day, eod_exchange. rewrite E1. cbn [fold_left]. rewrite E2. destruct (consume _ _ _ w2 _ _ _). reflexivity. Qed.
